@@ -62,7 +62,6 @@ Section Sim.
   (** the drop of a leading "--" respects the relation *)
   Hypothesis Hstrip : forall a1 r1 a2 r2, R (a1, r1) (a2, r2) ->
     R (strip a1 r1) (strip a2 r2) /\
-    Nat.eqb (length (fst (strip a1 r1))) (length a1) = Nat.eqb (length (fst (strip a2 r2))) (length a2) /\
     (fst (strip a1 r1) = [] <-> fst (strip a2 r2) = []).
 
   (** every matcher respects it, on configurations whose "--" has been dropped *)
@@ -97,37 +96,52 @@ Section Sim.
     destruct Hs as (-> & HR' & Hu). now constructor.
   Qed.
 
+  (** the visited set only matters between configurations that are the same as the current one, and
+      those have had their "--" dropped already: a call is made either with an empty set (after
+      progress, or at the start) or on configurations on which the drop is the identity *)
+  Definition settled (a1 : list str) (r1 : bool) (a2 : list str) (r2 : bool) (seen : list nat) : Prop :=
+    seen = [] \/ (strip a1 r1 = (a1, r1) /\ strip a2 r2 = (a2, r2)).
+
   Lemma try_matches_rel (rec1 rec2 : nat -> list str -> bool -> list nat -> ares * list nat) a1 r1 a2 r2 :
-    (forall t m1 o1 m2 o2 sn, R (m1, o1) (m2, o2) -> rec1 t m1 o1 sn = rec2 t m2 o2 sn) ->
+    strip a1 r1 = (a1, r1) -> strip a2 r2 = (a2, r2) ->
+    (forall t m1 o1 m2 o2 sn, R (m1, o1) (m2, o2) -> settled m1 o1 m2 o2 sn -> rec1 t m1 o1 sn = rec2 t m2 o2 sn) ->
     forall ms1 ms2, Rms a1 r1 a2 r2 ms1 ms2 ->
     forall seen, try_matches rec1 a1 r1 ms1 seen = try_matches rec2 a2 r2 ms2 seen.
   Proof.
-    intros Hrec ms1 ms2 H. induction H as [|t m1 o1 m2 o2 b ms1 ms2 HR Hu _ IH]; intros seen; [reflexivity|].
+    intros St1 St2 Hrec ms1 ms2 H. induction H as [|t m1 o1 m2 o2 b ms1 ms2 HR Hu _ IH]; intros seen; [reflexivity|].
     cbn [try_matches]. unfold unchanged in Hu. rewrite Hu.
-    destruct (strs_eqb m2 a2 && Bool.eqb o2 r2).
-    - destruct (mem_nat t seen); [apply IH|]. rewrite (Hrec t m1 o1 m2 o2 seen HR).
+    destruct (strs_eqb m2 a2 && Bool.eqb o2 r2) eqn:E2.
+    - destruct (mem_nat t seen); [apply IH|].
+      assert (Hset : settled m1 o1 m2 o2 seen).
+      { right. apply andb_true_iff in Hu as [X1 Y1]. apply andb_true_iff in E2 as [X2 Y2].
+        apply strs_eqb_eq in X1, X2. apply Bool.eqb_prop in Y1, Y2. subst. auto. }
+      rewrite (Hrec t m1 o1 m2 o2 seen HR Hset).
       destruct (rec2 t m2 o2 seen) as [[b'| |] s']; auto.
-    - rewrite (Hrec t m1 o1 m2 o2 [] HR). destruct (rec2 t m2 o2 []) as [[b'| |] s']; auto.
+    - rewrite (Hrec t m1 o1 m2 o2 [] HR (or_introl eq_refl)). destruct (rec2 t m2 o2 []) as [[b'| |] s']; auto.
   Qed.
 
   (** the two searches proceed in lockstep *)
   Theorem apply_lockstep : forall f s a1 r1 a2 r2 seen,
-    R (a1, r1) (a2, r2) -> apply D1 g f s a1 r1 seen = apply D2 g f s a2 r2 seen.
+    R (a1, r1) (a2, r2) -> settled a1 r1 a2 r2 seen ->
+    apply D1 g f s a1 r1 seen = apply D2 g f s a2 r2 seen.
   Proof.
-    induction f as [|f IH]; intros s a1 r1 a2 r2 seen HR; [reflexivity|].
-    cbn [apply]. destruct (Hstrip a1 r1 a2 r2 HR) as (HR' & Hlen & Hnil).
+    induction f as [|f IH]; intros s a1 r1 a2 r2 seen HR Hset; [reflexivity|].
+    cbn [apply]. destruct (Hstrip a1 r1 a2 r2 HR) as (HR' & Hnil).
     pose proof (strip_idem a1 r1) as I1. pose proof (strip_idem a2 r2) as I2.
+    assert (Hseen : (if Nat.eqb (length (fst (strip a1 r1))) (length a1) then seen else []) =
+                    (if Nat.eqb (length (fst (strip a2 r2))) (length a2) then seen else [])).
+    { destruct Hset as [->|[E1 E2]]; [now destruct (Nat.eqb _ _), (Nat.eqb _ _)|].
+      rewrite E1, E2. cbn [fst]. now rewrite !Nat.eqb_refl. }
     destruct (strip a1 r1) as [b1 q1], (strip a2 r2) as [b2 q2]. cbn [fst snd] in *.
-    rewrite Hlen.
+    rewrite Hseen.
     assert (Hterm : match b1 with [] => terminal g s | _ :: _ => false end =
                     match b2 with [] => terminal g s | _ :: _ => false end).
     { destruct b1, b2; try reflexivity; exfalso.
       - destruct Hnil as [Hn _]. specialize (Hn eq_refl). discriminate.
       - destruct Hnil as [_ Hn]. specialize (Hn eq_refl). discriminate. }
     rewrite Hterm. destruct (match b2 with [] => terminal g s | _ :: _ => false end); [reflexivity|].
-    apply try_matches_rel.
-    - intros t m1 o1 m2 o2 sn HRm. now apply IH.
-    - now apply collect_rel.
+    apply try_matches_rel; auto.
+    now apply collect_rel.
   Qed.
 End Sim.
 
@@ -137,7 +151,6 @@ Theorem bisim_same_result D g (R : cfg -> cfg -> Prop) (Lab : label -> Prop) :
   (forall s l t, In (l, t) (edges g s) -> Lab l) ->
   (forall a1 r1 a2 r2, R (a1, r1) (a2, r2) ->
     R (strip a1 r1) (strip a2 r2) /\
-    Nat.eqb (length (fst (strip a1 r1))) (length a1) = Nat.eqb (length (fst (strip a2 r2))) (length a2) /\
     (fst (strip a1 r1) = [] <-> fst (strip a2 r2) = [])) ->
   (forall l a1 r1 a2 r2, Lab l -> R (a1, r1) (a2, r2) ->
     strip a1 r1 = (a1, r1) -> strip a2 r2 = (a2, r2) ->
@@ -158,7 +171,7 @@ Proof.
   destruct (apply D g (apply_fuel g a2) start a2 false []) as [res2 sn2] eqn:E2. cbn [fst] in *.
   apply (apply_mono D g _ F) in E1; [|unfold F; lia|exact T1].
   apply (apply_mono D g _ F) in E2; [|unfold F; lia|exact T2].
-  rewrite (apply_lockstep D D g R Lab Hlab Hstrip Hstep F start a1 false a2 false [] HR) in E1.
+  rewrite (apply_lockstep D D g R Lab Hlab Hstrip Hstep F start a1 false a2 false [] HR (or_introl eq_refl)) in E1.
   congruence.
 Qed.
 
@@ -166,7 +179,9 @@ Qed.
 Section GroupSim.
   Variable D : optinfo.
   Variable R : list str -> list str -> Prop.   (* on argument lists in option mode *)
-  Hypothesis Hnil : forall a1 a2, R a1 a2 -> (a1 = [] <-> a2 = []).
+  (** the two lines are empty together, or no listed option can match on either *)
+  Hypothesis Hnil : forall a1 a2, R a1 a2 ->
+    (a1 = [] <-> a2 = []) \/ (forall o, m_opt D o a1 false = None /\ m_opt D o a2 false = None).
   Hypothesis Hopt : forall o a1 a2, R a1 a2 ->
     match m_opt D o a1 false, m_opt D o a2 false with
     | Some (m1, _, b1), Some (m2, _, b2) => b1 = b2 /\ R m1 m2 /\ (m1 = a1 <-> m2 = a2)
@@ -200,6 +215,12 @@ Section GroupSim.
     - now apply IH.
   Qed.
 
+  Lemma try_opts_none_all opts : forall ex a, (forall o, m_opt D o a false = None) -> try_opts D opts ex a = None.
+  Proof.
+    induction opts as [|o opts IH]; intros ex a H; cbn [try_opts]; [reflexivity|].
+    destruct (mem_nat o ex); [now apply IH|]. rewrite (H o). now apply IH.
+  Qed.
+
   Lemma try_rel opts ex a1 a2 : R a1 a2 ->
     match try_ D opts ex a1 false, try_ D opts ex a2 false with
     | Some (m1, b1, e1), Some (m2, b2, e2) => b1 = b2 /\ e1 = e2 /\ R m1 m2 /\ (m1 = a1 <-> m2 = a2)
@@ -207,11 +228,16 @@ Section GroupSim.
     | _, _ => False
     end.
   Proof.
-    intros HR. unfold try_. pose proof (Hnil a1 a2 HR) as Hn.
-    destruct a1 as [|x1 a1], a2 as [|x2 a2]; try exact I.
-    - destruct Hn as [Hn _]. specialize (Hn eq_refl). discriminate.
-    - destruct Hn as [_ Hn]. specialize (Hn eq_refl). discriminate.
-    - now apply try_opts_rel.
+    intros HR. unfold try_. destruct (Hnil a1 a2 HR) as [Hn|Hn].
+    - destruct a1 as [|x1 a1], a2 as [|x2 a2]; try exact I.
+      + destruct Hn as [Hn _]. specialize (Hn eq_refl). discriminate.
+      + destruct Hn as [_ Hn]. specialize (Hn eq_refl). discriminate.
+      + now apply try_opts_rel.
+    - assert (E1 : match a1 with [] => None | _ :: _ => try_opts D opts ex a1 end = None).
+      { destruct a1; [reflexivity|]. apply try_opts_none_all. intros o. apply Hn. }
+      assert (E2 : match a2 with [] => None | _ :: _ => try_opts D opts ex a2 end = None).
+      { destruct a2; [reflexivity|]. apply try_opts_none_all. intros o. apply Hn. }
+      rewrite E1, E2. exact I.
   Qed.
 
   Lemma try_size opts ex a m b e : try_ D opts ex a false = Some (m, b, e) -> m = a \/ args_size m < args_size a.
